@@ -280,3 +280,9 @@ def run(ctx):
                                 "of free-running 2-4 thread runs is checked to be a path of the proved automaton (counts under free_running_traces "
                                 "depend on OS timing)")
         ctx.coverage["free_running_traces"] = free_running
+    # ---- remote messages: adversarial-peer runs (real mpi.c on a fake MPI library, rank 1 played by a hostile but legal peer):
+    # every remote event / anti-message / early anti-message / free-at-GVT decision re-executed; exactly-once oracle on the
+    # committed stream of remote events (independent of the Lean model)
+    pagg = runlib.peer_matrix(ctx, 40, 1000, salt=6)
+    if pagg:
+        ctx.coverage["remote_messages"] = ctx.coverage.pop("peer_mode")
